@@ -31,13 +31,18 @@ func c06Fragment(k, m int) (string, string) {
 		verifAssume(len(t) == 0 || t[len(t)-1] != '{') // must not form a delimiter with its right neighbour
 		return t, t
 	case 1: // verbatim block: body emitted literally, never interpreted
+		if verifChoice(2) == 1 {
+			// bodies made of the delimiters themselves, incl. the opening marker of verbatim
+			b := []string{"{{ x }}", "{% if %}", "{# c", "{% verbatim %}", "a{% verbatim %}b", "{% endverbatim", "{{", "%}"}[verifChoice(8)]
+			return "{% verbatim %}" + b + "{% endverbatim %}", b
+		}
 		b := symString(m)
 		return "{% verbatim %}" + b + "{% endverbatim %}", b
-	case 2: // single-line comment
-		c := symString(m)
+	case 2: // single-line comment, content directly between the markers (also empty: {##})
+		c := symStringLen(0, m)
 		verifAssume(!hasByte(c, '\n'))
-		verifAssume(indexOf(c+" ", "#}") < 0)
-		return "{# " + c + " #}", ""
+		verifAssume(indexOf(c+"#}", "#}") == len(c)) // the first "#}" is the closing marker
+		return "{#" + c + "#}", ""
 	case 3: // comment tag with plain text content
 		d := symString(m)
 		verifAssume(noDelims(d))
